@@ -214,7 +214,7 @@ def depthTs : List Tbl → Nat
 def depthS : Sel → Nat
   | .select _ exprs from_ where_ groupBy having trig orderBy limOff limCnt =>
     max (depthEs exprs) (max (depthTs from_) (max (depthOE where_) (max (depthEs groupBy) (max (depthOE having)
-      (max (depthEs trig) (max (depthEs orderBy) (max (depthOE limOff) (depthOE limCnt))))))))
+      (max (depthEs trig) (max (depthEs orderBy) (if limCnt.isSome then max (depthOE limOff) (depthOE limCnt) else 0)))))))
   | .with_ ctes s => max (depthSs ctes) (depthS s + 1)
   | .cte _ s => depthS s + 1
 def depthSs : List Sel → Nat
